@@ -17,7 +17,7 @@ RULE = ('seeded coherent and wild models (namespaces to depth 3/6, classes / enu
         'serialization flag; one case = one toolbox; non-trivial = toolbox with >=2 classes and >=1 namespace; distinct = '
         'sha256(text, options)')
 ASSUMPTIONS = ['class-scoped enums of classes at namespace depth >= 2 (D25) and global-scope ignore entries (D14) are excluded while open',
-               'instantiated names contain no blank (D23)']
+               ]
 MIN_EVENTS = {'quick': {'files_compared': 3000, 'classdefs_checked': 800}, 'thorough': {'files_compared': 60000, 'classdefs_checked': 16000}}
 
 
